@@ -165,15 +165,15 @@ theorem writeULoop_nil (cfg : Cfg) (o : OutSt) (nl : Bool) : writeULoop cfg [] o
   rw [writeULoop]; simp
 
 /-- what the conversion loop of `hawk_tio_writeuchars` guarantees for BMP characters and **every** handler script -/
-def ULoopOk (cfg : Cfg) (ws : List Nat) (o : OutSt) (nl : Bool) : Prop :=
-  ∃ o' nl' res p, writeULoop cfg ws o nl = (o', nl', res) ∧ Grew cfg o o' p ∧ p <+: encodeAll T ws ∧
-    (res = none → p = encodeAll T ws) ∧ (res = none ∨ res = some (.inl .eioerr)) ∧
+def ULoopOk (cm : Cmgr) (cfg : Cfg) (ws : List Nat) (o : OutSt) (nl : Bool) : Prop :=
+  ∃ o' nl' res p, writeULoop cfg ws o nl = (o', nl', res) ∧ Grew cfg o o' p ∧ p <+: encodeAllC cm ws ∧
+    (res = none → p = encodeAllC cm ws) ∧ (res = none ∨ res = some (.inl .eioerr)) ∧
     ((∀ x ∈ o.script, isAcc x) → res = none ∧ (o.buf.length < cfg.capa ∨ ws ≠ [] → o'.buf.length < cfg.capa) ∧
       ∀ x ∈ o'.script, isAcc x)
 
-theorem writeULoop_spec (cfg : Cfg) (hT : cfg.tbl = T) (hc : 3 ≤ cfg.capa) :
-    ∀ (n m : Nat) (ws : List Nat) (o : OutSt) (nl : Bool), ws.length < n → o.work < m → BMP ws →
-      o.buf.length ≤ cfg.capa → ULoopOk cfg ws o nl := by
+theorem writeULoop_spec {cm : Cmgr} {dom : Nat → Prop} {maxlen : Nat} (hok : CodecOk cm dom maxlen) (cfg : Cfg) (hT : cfg.cm = cm) (hc : maxlen ≤ cfg.capa) :
+    ∀ (n m : Nat) (ws : List Nat) (o : OutSt) (nl : Bool), ws.length < n → o.work < m → Dom dom ws →
+      o.buf.length ≤ cfg.capa → ULoopOk cm cfg ws o nl := by
   intro n
   induction n with
   | zero => intro m ws o nl h; omega
@@ -185,12 +185,16 @@ theorem writeULoop_spec (cfg : Cfg) (hT : cfg.tbl = T) (hc : 3 ≤ cfg.capa) :
       intro ws o nl hn hm hb hl
       by_cases hw : ws = []
       · subst hw
-        exact ⟨o, nl, none, [], writeULoop_nil .., Grew.rfl' cfg o hl, by simp [encodeAll_nil], by simp [encodeAll_nil], Or.inl rfl,
+        exact ⟨o, nl, none, [], writeULoop_nil .., Grew.rfl' cfg o hl, by simp [encodeAllC_nil], by simp [encodeAllC_nil], Or.inl rfl,
           fun ha => ⟨rfl, fun h => by rcases h with h | h; exact h; exact absurd rfl h, ha⟩⟩
       · have hwl : 0 < ws.length := List.length_pos_iff.mpr hw
-        obtain ⟨x, k, bs, hcv, hk, hbs, hlen, hx⟩ := convUtoB_bmp ws hb (cfg.capa - o.buf.length)
-        have hsplit : encodeAll T ws = bs ++ encodeAll T (ws.drop k) := by
-          rw [hbs, ← encodeAll_append, List.take_append_drop]
+        have hcap : 0 < cfg.capa := by
+          obtain ⟨c0, hc0⟩ := List.exists_mem_of_ne_nil ws hw
+          have := hok.enc_len c0 (hb c0 hc0)
+          omega
+        obtain ⟨x, k, bs, hcv, hk, hbs, hlen, hx⟩ := convUtoB_bmp hok ws hb (cfg.capa - o.buf.length)
+        have hsplit : encodeAllC cm ws = bs ++ encodeAllC cm (ws.drop k) := by
+          rw [hbs, ← encodeAllC_append, List.take_append_drop]
         have hfit : o.buf.length + bs.length ≤ cfg.capa := by omega
         have hs1 := step_append cfg o bs hfit
         unfold ULoopOk
@@ -198,7 +202,7 @@ theorem writeULoop_spec (cfg : Cfg) (hT : cfg.tbl = T) (hc : 3 ≤ cfg.capa) :
         simp only
         rcases hx with ⟨rfl, rfl⟩ | ⟨rfl, c, rest, hd, hlt⟩
         · -- everything converted
-          simp only [List.drop_length, encodeAll_nil, List.append_nil] at hsplit
+          simp only [List.drop_length, encodeAllC_nil, List.append_nil] at hsplit
           have hne : ws.length ≠ 0 := by omega
           simp only [show ((0 : Int) = -2) = False by decide, if_false, show ¬ ((0 : Int) ≤ -1) by decide, dif_neg hne,
             List.drop_length, writeULoop_nil]
@@ -220,8 +224,8 @@ theorem writeULoop_spec (cfg : Cfg) (hT : cfg.tbl = T) (hc : 3 ≤ cfg.capa) :
               fun ha => ⟨rfl, fun _ => by simp at hfull ⊢; omega, ha⟩⟩
         · -- the next character does not fit: flush and continue
           simp only [if_true]
-          have hcb : c < 65536 := hb c (List.mem_of_mem_drop (by rw [hd]; simp))
-          have hbd : BMP (ws.drop k) := fun x hx => hb x (List.mem_of_mem_drop hx)
+          have hcb : dom c := hb c (List.mem_of_mem_drop (by rw [hd]; simp))
+          have hbd : Dom dom (ws.drop k) := fun x hx => hb x (List.mem_of_mem_drop hx)
           have hs2 := step_flush cfg { o with buf := o.buf ++ bs } (by simpa using hfit)
           obtain ⟨_, _, hwk, hwk', _⟩ := flush_spec { o with buf := o.buf ++ bs }
           rcases hfl : flush { o with buf := o.buf ++ bs } with ⟨o2, _ | cnt⟩
@@ -235,18 +239,18 @@ theorem writeULoop_spec (cfg : Cfg) (hT : cfg.tbl = T) (hc : 3 ≤ cfg.capa) :
               by_cases hk0 : k = 0
               · right
                 subst hk0
-                simp [encodeAll_nil] at hbs
+                simp [encodeAllC_nil] at hbs
                 subst hbs
                 have hbne : o.buf ≠ [] := by
                   intro h0
-                  have := (enc_len c hcb).2
+                  have := (hok.enc_len c hcb).2
                   simp [h0] at hlt
                   omega
                 have := hwk' (by simpa using hbne)
                 simpa [OutSt.work] using this
               · exact Or.inl hk0
             rw [dif_pos hprog]
-            have hrec : ULoopOk cfg (ws.drop k) o2 false := by
+            have hrec : ULoopOk cm cfg (ws.drop k) o2 false := by
               by_cases hk0 : k = 0
               · subst hk0
                 rcases hprog with h | h
@@ -271,15 +275,15 @@ def WriteOk (cfg : Cfg) (text : List UInt8) (o : OutSt) (r : OutSt × Option (Su
     ((∀ x ∈ o.script, isAcc x) → o.buf.length < cfg.capa → r.2 = none ∧ r.1.buf.length < cfg.capa ∧ ∀ x ∈ r.1.script, isAcc x)
 
 /-- `hawk_tio_writeuchars` with BMP characters, for every handler script -/
-theorem writeUchars_spec (cfg : Cfg) (hT : cfg.tbl = T) (hc : 3 ≤ cfg.capa) (ws : List Nat) (o : OutSt) (hb : BMP ws)
-    (hl : o.buf.length ≤ cfg.capa) : WriteOk cfg (encodeAll T ws) o (writeUchars cfg ws o) := by
+theorem writeUchars_spec {cm : Cmgr} {dom : Nat → Prop} {maxlen : Nat} (hok : CodecOk cm dom maxlen) (cfg : Cfg) (hT : cfg.cm = cm) (hc : maxlen ≤ cfg.capa) (ws : List Nat) (o : OutSt) (hb : Dom dom ws)
+    (hl : o.buf.length ≤ cfg.capa) : WriteOk cfg (encodeAllC cm ws) o (writeUchars cfg ws o) := by
   unfold writeUchars
   by_cases hfull : o.buf.length ≥ cfg.capa
   · rw [if_pos hfull]
     exact ⟨[], Grew.rfl' cfg o hl, by simp, by simp, Or.inr (Or.inr ⟨rfl, rfl, hfull⟩), fun _ h => by omega⟩
   · rw [if_neg hfull]
     obtain ⟨o', nl', res, p, hrun, hst, hpre, hfin, hres, hacc⟩ :=
-      writeULoop_spec cfg hT hc (ws.length + 1) (o.work + 1) ws o false (by omega) (by omega) hb hl
+      writeULoop_spec hok cfg hT hc (ws.length + 1) (o.work + 1) ws o false (by omega) (by omega) hb hl
     rw [hrun]
     simp only
     rcases hres with rfl | rfl
@@ -406,13 +410,13 @@ inductive WOp
 deriving Repr, DecidableEq
 
 /-- the bytes a call is asked to put on the stream -/
-def WOp.text : WOp → List UInt8
-  | .u ws => encodeAll T ws
+def WOp.text (cm : Cmgr) : WOp → List UInt8
+  | .u ws => encodeAllC cm ws
   | .b bs => bs
   | .fl => []
 
-def WOp.bmp : WOp → Prop
-  | .u ws => BMP ws
+def WOp.bmp (dom : Nat → Prop) : WOp → Prop
+  | .u ws => Dom dom ws
   | _ => True
 
 /-- one call: new state and "the call reported success" (a return value ≥ 0) -/
@@ -428,24 +432,24 @@ def runOps (cfg : Cfg) : List WOp → OutSt → OutSt × List Bool
 
 /-- `ps` says how much of each call's text entered the stream: all of it when the call reported success, a prefix of it
 when the call reported failure -/
-def PartsOk : List WOp → List Bool → List (List UInt8) → Prop
+def PartsOk (cm : Cmgr) : List WOp → List Bool → List (List UInt8) → Prop
   | [], [], [] => True
-  | op :: ops, ok :: oks, p :: ps => p <+: op.text ∧ (ok = true → p = op.text) ∧ PartsOk ops oks ps
+  | op :: ops, ok :: oks, p :: ps => p <+: op.text cm ∧ (ok = true → p = op.text cm) ∧ PartsOk cm ops oks ps
   | _, _, _ => False
 
-theorem runOp_spec (cfg : Cfg) (hT : cfg.tbl = T) (hc : 3 ≤ cfg.capa) (op : WOp) (o : OutSt) (hb : op.bmp)
+theorem runOp_spec {cm : Cmgr} {dom : Nat → Prop} {maxlen : Nat} (hok : CodecOk cm dom maxlen) (cfg : Cfg) (hT : cfg.cm = cm) (hc : maxlen ≤ cfg.capa) (op : WOp) (o : OutSt) (hb : op.bmp dom) (hc1 : 1 ≤ cfg.capa)
     (hl : o.buf.length ≤ cfg.capa) :
-    ∃ p, Grew cfg o (runOp cfg op o).1 p ∧ p <+: op.text ∧ ((runOp cfg op o).2 = true → p = op.text) ∧
+    ∃ p, Grew cfg o (runOp cfg op o).1 p ∧ p <+: op.text cm ∧ ((runOp cfg op o).2 = true → p = op.text cm) ∧
       ((∀ x ∈ o.script, isAcc x) → o.buf.length < cfg.capa →
         (runOp cfg op o).2 = true ∧ (runOp cfg op o).1.buf.length < cfg.capa ∧ ∀ x ∈ (runOp cfg op o).1.script, isAcc x) := by
   cases op with
   | u ws =>
-    obtain ⟨p, h1, h2, h3, _, h5⟩ := writeUchars_spec cfg hT hc ws o hb hl
+    obtain ⟨p, h1, h2, h3, _, h5⟩ := writeUchars_spec hok cfg hT hc ws o hb hl
     refine ⟨p, h1, h2, fun h => h3 (by simpa [runOp] using h), fun ha hlt => ?_⟩
     obtain ⟨a, b, c⟩ := h5 ha hlt
     exact ⟨by simp [runOp, a], b, c⟩
   | b bs =>
-    obtain ⟨p, h1, h2, h3, _, h5⟩ := writeBchars_spec cfg (by omega) bs o hl
+    obtain ⟨p, h1, h2, h3, _, h5⟩ := writeBchars_spec cfg hc1 bs o hl
     refine ⟨p, h1, h2, fun h => h3 (by simpa [runOp] using h), fun ha hlt => ?_⟩
     obtain ⟨a, b, c⟩ := h5 ha hlt
     exact ⟨by simp [runOp, a], b, c⟩
@@ -455,17 +459,17 @@ theorem runOp_spec (cfg : Cfg) (hT : cfg.tbl = T) (hc : 3 ≤ cfg.capa) (op : WO
     exact ⟨by simp [runOp, hc'], by simp only [runOp]; rw [h2]; simp; omega, h3⟩
 
 /-- every sequence of write-side calls against every handler script -/
-theorem runOps_spec (cfg : Cfg) (hT : cfg.tbl = T) (hc : 3 ≤ cfg.capa) :
-    ∀ (ops : List WOp) (o : OutSt), (∀ op ∈ ops, op.bmp) → o.buf.length ≤ cfg.capa →
-      ∃ ps, PartsOk ops (runOps cfg ops o).2 ps ∧ Grew cfg o (runOps cfg ops o).1 ps.flatten ∧
+theorem runOps_spec {cm : Cmgr} {dom : Nat → Prop} {maxlen : Nat} (hok : CodecOk cm dom maxlen) (cfg : Cfg) (hT : cfg.cm = cm) (hc : maxlen ≤ cfg.capa) :
+    ∀ (ops : List WOp) (o : OutSt), (∀ op ∈ ops, op.bmp dom) → 1 ≤ cfg.capa → o.buf.length ≤ cfg.capa →
+      ∃ ps, PartsOk cm ops (runOps cfg ops o).2 ps ∧ Grew cfg o (runOps cfg ops o).1 ps.flatten ∧
         ((∀ x ∈ o.script, isAcc x) → o.buf.length < cfg.capa → ∀ ok ∈ (runOps cfg ops o).2, ok = true) := by
   intro ops
   induction ops with
-  | nil => intro o _ hl; exact ⟨[], trivial, by simpa [runOps] using Grew.rfl' cfg o hl, fun _ _ ok h => by simp [runOps] at h⟩
+  | nil => intro o _ _ hl; exact ⟨[], trivial, by simpa [runOps] using Grew.rfl' cfg o hl, fun _ _ ok h => by simp [runOps] at h⟩
   | cons op rest ih =>
-    intro o hb hl
-    obtain ⟨p, h1, h2, h3, h4⟩ := runOp_spec cfg hT hc op o (hb op (by simp)) hl
-    obtain ⟨ps, h5, h6, h7⟩ := ih (runOp cfg op o).1 (fun x hx => hb x (by simp [hx])) h1.len
+    intro o hb hc1 hl
+    obtain ⟨p, h1, h2, h3, h4⟩ := runOp_spec hok cfg hT hc op o (hb op (by simp)) hc1 hl
+    obtain ⟨ps, h5, h6, h7⟩ := ih (runOp cfg op o).1 (fun x hx => hb x (by simp [hx])) hc1 h1.len
     refine ⟨p :: ps, ⟨h2, h3, h5⟩, by simpa [runOps] using h1.trans h6, fun ha hlt ok hok => ?_⟩
     obtain ⟨a, b, c⟩ := h4 ha hlt
     simp only [runOps, List.mem_cons] at hok
@@ -473,8 +477,8 @@ theorem runOps_spec (cfg : Cfg) (hT : cfg.tbl = T) (hc : 3 ≤ cfg.capa) :
     · exact a
     · exact h7 c b ok hok
 
-theorem partsOk_all (ops : List WOp) : ∀ (oks : List Bool) (ps : List (List UInt8)), PartsOk ops oks ps →
-    (∀ ok ∈ oks, ok = true) → ps.flatten = (ops.map WOp.text).flatten := by
+theorem partsOk_all (cm : Cmgr) (ops : List WOp) : ∀ (oks : List Bool) (ps : List (List UInt8)), PartsOk cm ops oks ps →
+    (∀ ok ∈ oks, ok = true) → ps.flatten = (ops.map (WOp.text cm)).flatten := by
   induction ops with
   | nil => intro oks ps h _; cases oks <;> cases ps <;> simp_all [PartsOk]
   | cons op rest ih =>
@@ -488,8 +492,8 @@ theorem partsOk_all (ops : List WOp) : ∀ (oks : List Bool) (ps : List (List UI
         obtain ⟨_, h2, h3⟩ := h
         simp [h2 (hall ok (by simp)), ih oks ps h3 (fun x hx => hall x (by simp [hx]))]
 
-theorem partsOk_prefix (ops : List WOp) : ∀ (oks : List Bool) (ps : List (List UInt8)), PartsOk ops oks ps →
-    ps.length = ops.length ∧ ps.flatten.length ≤ ((ops.map WOp.text).flatten).length := by
+theorem partsOk_prefix (cm : Cmgr) (ops : List WOp) : ∀ (oks : List Bool) (ps : List (List UInt8)), PartsOk cm ops oks ps →
+    ps.length = ops.length ∧ ps.flatten.length ≤ ((ops.map (WOp.text cm)).flatten).length := by
   induction ops with
   | nil => intro oks ps h; cases oks <;> cases ps <;> simp_all [PartsOk]
   | cons op rest ih =>
@@ -509,10 +513,74 @@ theorem partsOk_prefix (ops : List WOp) : ∀ (oks : List Bool) (ps : List (List
 def writeMany (cfg : Cfg) (segs : List (List Nat)) (o : OutSt) : OutSt × Bool :=
   ((runOps cfg (segs.map WOp.u) o).1, (runOps cfg (segs.map WOp.u) o).2.all id)
 
-theorem encodeAll_flatten (segs : List (List Nat)) :
-    ((segs.map WOp.u).map WOp.text).flatten = encodeAll T segs.flatten := by
+theorem encodeAll_flatten (cm : Cmgr) (segs : List (List Nat)) :
+    ((segs.map WOp.u).map (WOp.text cm)).flatten = encodeAllC cm segs.flatten := by
   induction segs with
-  | nil => simp [encodeAll_nil]
-  | cons ws rest ih => simp only [List.map_cons, List.flatten_cons, ih, encodeAll_append, WOp.text]
+  | nil => simp [encodeAllC_nil]
+  | cons ws rest ih => simp only [List.map_cons, List.flatten_cons, ih, encodeAllC_append, WOp.text]
+
+/-! ### the null-terminated byte write -/
+
+theorem writeBcstrLoop_spec (cfg : Cfg) (hl : cfg.legacy = false) :
+    ∀ (bs : List UInt8) (o : OutSt) (nl : Bool), o.buf.length ≤ cfg.capa →
+      ∃ o' nl' res p, writeBcstrLoop cfg bs o nl = (o', nl', res) ∧ Grew cfg o o' p ∧ p <+: bs ∧ (res = none → p = bs) ∧
+        (res = none ∨ res = some (.inl .eioerr) ∨ res = some (.inl .ebuffull)) := by
+  intro bs
+  induction bs with
+  | nil => intro o nl h; exact ⟨o, nl, none, [], rfl, Grew.rfl' cfg o h, by simp, by simp, Or.inl rfl⟩
+  | cons b rest ih =>
+    intro o nl h
+    rw [writeBcstrLoop]
+    by_cases hfull : o.buf.length ≥ cfg.capa
+    · rw [if_pos hfull]
+      exact ⟨o, nl, _, [], rfl, Grew.rfl' cfg o h, by simp, by simp [hl], Or.inr (Or.inr (by simp [hl]))⟩
+    · rw [if_neg hfull]
+      have hs1 := step_append cfg o [b] (by simp; omega)
+      simp only
+      by_cases hf1 : (o.buf ++ [b]).length ≥ cfg.capa
+      · rw [if_pos hf1]
+        have hs2 := step_flush cfg { o with buf := o.buf ++ [b] } (by simp; omega)
+        rcases hfl : flush { o with buf := o.buf ++ [b] } with ⟨o2, _ | cnt⟩
+        · rw [hfl] at hs2
+          exact ⟨o2, nl, _, [b] ++ [], rfl, hs1.trans hs2, by simp, by simp, Or.inr (Or.inl rfl)⟩
+        · rw [hfl] at hs2
+          obtain ⟨o', nl', res, p, hrun, hst, hpre, hfin, hres⟩ := ih o2 false hs2.len
+          refine ⟨o', nl', res, [b] ++ [] ++ p, hrun, (hs1.trans hs2).trans hst, ?_, ?_, hres⟩
+          · simpa using hpre
+          · intro hr; simp [hfin hr]
+      · rw [if_neg hf1]
+        obtain ⟨o', nl', res, p, hrun, hst, hpre, hfin, hres⟩ :=
+          ih { o with buf := o.buf ++ [b] } (if cfg.noAutoFlush then false else (nl || b == 0x0A)) hs1.len
+        refine ⟨o', nl', res, [b] ++ p, hrun, hs1.trans hst, ?_, ?_, hres⟩
+        · simpa using hpre
+        · intro hr; simp [hfin hr]
+
+/-- `hawk_tio_writebchars` with a null-terminated source (repaired), every handler script: the part that entered
+"accepted ++ staged" is a prefix of the bytes before the first NUL, all of them on success; failure is EIOERR or EBUFFULL;
+nothing is ever stored beyond the buffer -/
+theorem writeBcstr_spec (cfg : Cfg) (hl : cfg.legacy = false) (bs : List UInt8) (o : OutSt) (h : o.buf.length ≤ cfg.capa) :
+    ∃ p, Grew cfg o (writeBcstr cfg bs o).1 p ∧ p <+: bs.takeWhile (· ≠ 0) ∧ ((writeBcstr cfg bs o).2 = none → p = bs.takeWhile (· ≠ 0)) ∧
+      ((writeBcstr cfg bs o).2 = none ∨ (writeBcstr cfg bs o).2 = some (.inl .eioerr) ∨ (writeBcstr cfg bs o).2 = some (.inl .ebuffull)) := by
+  unfold writeBcstr
+  by_cases hfull : o.buf.length ≥ cfg.capa
+  · rw [if_pos hfull]
+    exact ⟨[], Grew.rfl' cfg o h, by simp, by simp, Or.inr (Or.inr rfl)⟩
+  · rw [if_neg hfull]
+    obtain ⟨o', nl', res, p, hrun, hst, hpre, hfin, hres⟩ := writeBcstrLoop_spec cfg hl (bs.takeWhile (· ≠ 0)) o false h
+    rw [hrun]
+    rcases hres with rfl | rfl | rfl
+    · simp only
+      cases nl' with
+      | false => exact ⟨p, hst, hpre, fun _ => hfin rfl, Or.inl rfl⟩
+      | true =>
+        simp only [if_true]
+        have hs2 := step_flush cfg o' hst.len
+        rcases hfl : flush o' with ⟨o2, _ | cnt⟩
+        · rw [hfl] at hs2
+          exact ⟨p ++ [], hst.trans hs2, by simpa using hpre, by simp, Or.inr (Or.inl rfl)⟩
+        · rw [hfl] at hs2
+          exact ⟨p ++ [], hst.trans hs2, by simpa using hpre, fun _ => by simpa using hfin rfl, Or.inl rfl⟩
+    · exact ⟨p, hst, hpre, by simp, Or.inr (Or.inl rfl)⟩
+    · exact ⟨p, hst, hpre, by simp, Or.inr (Or.inr rfl)⟩
 
 end Hawk.Tio
